@@ -118,6 +118,7 @@ func (g *Generator) Generate(args *Arguments) (res *plugin.Response) {
 
 	g.files = NewFileManager(log)
 	g.log = log
+	g.plugins = nil // the generator is reused for every target language
 
 	be := g.GetBackend(out.Language)
 	if be == nil {
